@@ -86,6 +86,16 @@ def run(ctx, kinds):
 
 def replay(ctx, obj, kinds):
     case = obj["case"]
+    if obj.get("engine") == "conc-lockprog":
+        mm = overlay.stream(ctx, "lockprog-replay", "lockprog", "lockprog", replay_lines=[case])
+        if mm is None:
+            return ctx.finish(write_evidence=False)
+        for (i, c, m, o) in mm:
+            print("replay: still differs\n case:     %s\n table:    %s\n observed: %s" % (c, m, o))
+            ctx.violation("replay", obj.get("what", "replayed case still fails"), dict(obj, model=m, observed=o))
+        if not mm:
+            print("replay: the call's acquire/release sequence equals its table entry now")
+        return ctx.finish(write_evidence=False)
     mm = overlay.stream(ctx, "conc-replay", "conc", "conc", replay_lines=[case])
     if mm is None:
         return ctx.finish(write_evidence=False)
